@@ -5,6 +5,7 @@ import prov
 from common import as_param_path, delta_fields
 
 EXPLANATION = (
+    "R6: no one-shot difficulty entry point (Difficulty::calculate, <mode>::difficulty::difficulty) returns attributes that did not go through the calculation (an early exit with Default::default() reports AR / HP / hit windows of 0 where the builder gives the real ones). "
     "Flow clauses over resolved MIR: build() calls self.hit_windows() once on the unmodified builder, stores that value in "
     "BeatmapAttributes.hit_windows and derives ar (and od for osu/taiko) from its fields (R1); the calculators copy AR/HP/"
     "hit windows from Beatmap::attributes(converted map).difficulty(difficulty parameter).{build, hit_windows}() field by "
@@ -219,6 +220,8 @@ def run(ctx):
                     bad='attribute %s: setter writes `%s`, difficulty() overwrites %s from get_%s, %s reads %s — the three must be the same single slot'
                         % (x, slot, over, x, label, sorted(reads)))
     r5_with_mods(ctx, F)
+    from props import C04 as _c04
+    _c04.r5_no_default_attributes(ctx, F, rule='C17-R6')
     ctx.not_decided('with_mods=true round trip, monotonicity of hit windows in OD/AR, inverse scaling with clock rate, HR/EZ ordering, '
                     'numeric equality of stored AR/OD with the builder output')
 
